@@ -31,7 +31,7 @@ ANCHORS = ["uvl_reader.py:UVLReader.set_parse_tree", "uvl_reader.py:CustomErrorL
            "uvl_reader.py:UVLReader.process_parenthesis_constraint", "uvl_reader.py:UVLReader.parse_cardinality"]
 NSHARDS = 16
 LOG5 = ("NOT", "AND", "OR", "IMPLIES", "EQUIVALENCE")
-KNOBS = ["quote_all", "redundant_parens", "merge_groups", "indent2", "indent4", "indent8", "comments", "namespace",
+KNOBS = ["quote_all", "redundant_parens", "merge_groups", "indent2", "indent4", "indent8", "comments", "namespace", "namespace_root",
          "imports", "include", "card_short", "abstract_true", "boolean_explicit", "card_for_all", "tight"]
 
 
@@ -66,6 +66,16 @@ def inj_big_literal(spec, r):
     return spec
 
 
+def inj_root_attr_ref(spec, r):
+    """A constraint that refers to an attribute of the ROOT feature (Root.cost)."""
+    root = spec["root"]
+    if not any(a["name"] == "cost" for a in root.get("attrs", [])):
+        root.setdefault("attrs", []).append({"name": "cost", "value": 7})
+    other = r.choice(S.feature_names(spec))
+    spec["ctcs"].append({"name": "x", "ast": ["IMPLIES", other, [r.choice(S.COMPARE), root["name"] + ".cost", r.choice([3, 10])]]})
+    return spec
+
+
 def classes():
     from . import roundtrip as RT
     c = [x for x in RT.UVL().classes() if not x[0].startswith("ctc:") and x[0] not in ("name:uvl-keyword",)]
@@ -76,7 +86,7 @@ def classes():
     c += [("ctc:arith:" + o, inject.inj_ctc_uvl("arith:" + o)) for o in S.ARITH]
     c += [("ctc:" + k, inject.inj_ctc_uvl(k)) for k in ("arith:nested", "cmp:string", "cmp-under-logic")]
     c += [("ctc:aggr:" + a, inj_aggr(a)) for a in S.AGGR]
-    c += [("ctc:big-int-literal", inj_big_literal)]
+    c += [("ctc:big-int-literal", inj_big_literal), ("ctc:root-attr-ref", inj_root_attr_ref)]
     c += [("name:uvl-keyword", inject.inj_rename("name:uvl-keyword", inject.UVL_KEYWORDS))]
     return c
 
@@ -104,6 +114,9 @@ def make_knobs(r, which=None):
             k.redundant_parens = r.choice([0.2, 0.5, 1.0])
         elif x.startswith("indent"):
             k.indent = " " * int(x[6:])
+        elif x == "namespace_root":
+            k.namespace = True
+            k.namespace_root = True
         else:
             setattr(k, x, True)
     return k, chosen
@@ -165,6 +178,28 @@ def judge_positive(acc, spec, tags, knobs, chosen, work, idx):
     if obs != exp:
         acc.fail(cls, "denoted-model", "UVLReader", [], which_differs(exp, obs), RT_first_diff(exp, obs), payload, key)
         return
+    if idx % 4 == 1:
+        # history: the model handed out is edited in place by its owner; a byte-identical document read afterwards
+        # (new reader) still denotes the document's model
+        try:
+            m.root.name = m.root.name + "_edited"
+            m.root.is_abstract = not m.root.is_abstract
+            for f in m.get_features()[:3]:
+                for a in f.attributes:
+                    a.default_value = "edited"
+            if m.ctcs:
+                m.ctcs.pop()
+            path2 = os.path.join(work, f"p{idx}_copy.uvl")
+            shutil.copy(path, path2)
+            again = S.observe(UVLReader(path2).transform())
+            if again != exp:
+                acc.fail(cls, "denoted-model", "UVLReader", [], "second-read-returns-edited-objects",
+                         "a byte-identical document read after the first model was edited in place: " + RT_first_diff(exp, again),
+                         payload, key)
+                return
+        except Exception as e:  # noqa: BLE001
+            acc.fail(cls, "valid-document-is-read", "UVLReader", [], f"raises:{type(e).__name__}@second-read", str(e)[:160], payload, key)
+            return
     acc.held(cls, key)
 
 
